@@ -25,6 +25,8 @@ def rq(v):
 
 def lq(v):
     v = float(v)
+    if v == float("inf") or abs(v) > 1e12:
+        return 45000          # the infinite rigidity (see rq): one common code, whatever rounding made of it
     if not np.isfinite(v) or v <= 0:
         return -999999
     return int(round(math.log2(v) * 1024))
